@@ -245,6 +245,20 @@ def run(tier):
                         for r in res:
                             classes[f"intruder:{target}:{r}"] = classes.get(f"intruder:{target}:{r}", 0) + 1
                         schedules.add((cfg, "intruder", kind, target, pos))
+            # a crowd: one transfer pauses between two of its datagrams while 6..10 other clients get their requests accepted
+            for victim in ("up", "down", "up@1024"):
+                for crowd in (6, 7, 10):
+                    for pause_after in (1, 2):
+                        roles = (victim,) + tuple(("down", "up")[i % 2] for i in range(crowd))
+                        vsteps = 3 + 1 + (1 if (("@" in victim) and victim.startswith("down")) else 0)
+                        order = [0] * pause_after + list(range(1, crowd + 1)) + [0] * (vsteps - pause_after)
+                        for i in range(1, crowd + 1):
+                            order += [i] * 3
+                        tagn += 1
+                        evaluations += 1
+                        run_schedule(v, srv, sb, cfg, roles, 3, tuple(order), f"c{tagn}")
+                        schedules.add((cfg, "crowd", victim, crowd, pause_after))
+            classes[f"crowd:{cfg}"] = 18
             # seeded random: K up to 8 (16 thorough), mixed roles, intruders at random steps
             for r in range(60 if thorough else 12):
                 K = rng.randint(3, 16 if thorough else 8)
